@@ -67,6 +67,10 @@ def verify_function(reg, qual, prop):
         v = named(k, "in_" + n)
         st.vars[n] = v
         inputs.append((n, k))
+    for n, ktxt in spec.ghost.items():
+        k = parse_kind(ktxt) if isinstance(ktxt, str) else ktxt
+        st.vars[n] = named(k, "in_" + n)
+        inputs.append((n, k))
     for n, q in spec.bind.items():
         st.vars[n] = Val(FUNC, [], py=("func", reg.index.funcs[q]))
     # parameters not mentioned in the contract take their default value
@@ -206,6 +210,27 @@ def decl_names(expr, cache):
     return out
 
 
+def array_syms(expr, cache):
+    """names of uninterpreted symbols that denote containers / heaps / functions (array sort or arity > 0)"""
+    out = set()
+    todo = [expr]
+    while todo:
+        e = todo.pop()
+        i = e.get_id()
+        if i in cache:
+            continue
+        cache.add(i)
+        if z3.is_quantifier(e):
+            todo.append(e.body())
+            continue
+        if z3.is_app(e):
+            d = e.decl()
+            if d.kind() == z3.Z3_OP_UNINTERPRETED and (d.arity() > 0 or d.range().kind() == z3.Z3_ARRAY_SORT):
+                out.add(d.name())
+            todo.extend(e.children())
+    return out
+
+
 def ground_sqrt(body):
     """Replace every ground application sqrt(t) by a fresh real s with  t >= 0 -> (s >= 0 and s*s == t):
     an instance of the trusted sqrt contract, which keeps the obligation quantifier-free."""
@@ -313,6 +338,39 @@ def package(reg, ctx, res):
         variants = [("smt2", hyps)]
         if pending or pruned:
             variants.append(("smt2_rel", always + chosen))
+        # cone of influence over non-input symbols: a hypothesis that shares no symbol other than the function's
+        # inputs with (goal, path condition, hypotheses already in the cone) speaks about other program points
+        # (older versions of variables havoced again since) and is left out of this variant
+        if o.kind != "cover":
+            base = always + chosen
+            asym_cache = {}
+
+            def asyms(e):
+                k = e.get_id()
+                if k not in asym_cache:
+                    asym_cache[k] = (array_syms(e, set()), e)
+                return asym_cache[k][0]
+            noninput = lambda ss: {x for x in ss if not x.startswith("in_") and not x.startswith("H0_")}
+            cone2 = noninput(asyms(goal)) | noninput(asyms(o.pc))
+            keep, rest2 = [], list(base)
+            changed2 = True
+            while changed2:
+                changed2 = False
+                nxt = []
+                for h in rest2:
+                    sh = noninput(asyms(h))
+                    if not sh or (sh & cone2):
+                        keep.append(h)
+                        if sh - cone2:
+                            cone2 |= sh
+                            changed2 = True
+                    else:
+                        nxt.append(h)
+                rest2 = nxt
+            if rest2:
+                order = {h.get_id(): i for i, h in enumerate(base)}
+                keep.sort(key=lambda h: order[h.get_id()])
+                variants.append(("smt2_cone", keep))
         rec = dict(name=o.name, kind=o.kind, carry=o.carry, line=o.line)
         for key, hs in variants:
             s = z3.Solver()
